@@ -470,13 +470,19 @@ def runFromK (p : Pat) (cfg : Cfg) (s : Eng) : List Event → Eng × List (Event
 def matchesOfK (p : Pat) (cfg : Cfg) (evs : List Event) : List Match :=
   (((runFromK p cfg Eng.init evs).2.map (·.2)).flatten)
 
+/-- the last step carries no postponed filter -/
+def Pat.lastPlainB (p : Pat) : Bool :=
+  match p.steps.getLast? with
+  | some s => s.postponed.isNone
+  | none => true
+
 /-- the second fragment: exactly one `all` step, neither first nor last, with a self-referencing filter;
 the filter does not mention aliases of later steps; later filters and `.not` clauses do not mention the
 `all` step's alias (they are evaluated against the *last accumulated* event, not the combination's). -/
 def Pat.deferredOK (p : Pat) : Bool :=
   match p.deferredStep with
   | some (i, s, q) =>
-    decide (0 < i) && (p.steps.filter (·.kleene)).length == 1 &&
+    decide (0 < i) && (p.steps.filter (·.kleene)).length == 1 && p.lastPlainB &&
     (p.steps.drop (i + 1)).all (fun t => (match t.alias with | some a => !q.refs.contains a | none => true) &&
                                         (match s.alias with | some b => !(optRefs t.pred).contains b | none => true)) &&
     p.negs.all (fun n => match s.alias with | some b => !(optRefs n.pred).contains b | none => true)
